@@ -301,6 +301,8 @@ class OpSequences(LockStep):
                 full, mx, sample = (2, 4, 30) if name == "bed3" else ((1, 3, 12) if name != "sam" else (1, 3, 6))
             else:
                 full, mx, sample = (3, 6, 400) if name == "bed3" else (2, 5, 150)
+            if os.environ.get("VERIF_C05_SAMPLE_ONLY"):      # exploration aid: only the seeded sample (no exhaustive part)
+                full = 0
             # the quick tier is the same set on every run (a fixed sample); VERIF_SEED moves the sample of the thorough tier
             progs = gen_programs(ops, mx, sample, seed if tier == "thorough" else 0, full)
             if not is_seq(f):
